@@ -464,7 +464,37 @@ pub struct C08Opts {
     pub eof_clause: bool,
 }
 
+/// a line comment that is ended by a lone CR: the lexer ends the comment there, but the rest of the
+/// pipeline only knows LF as a line break, so the break after the comment is the reconstructor's
+/// last-resort one (known finding)
+pub fn lone_cr_after_line_comment(x: &str) -> bool {
+    let toks = r::scan(x);
+    (0..toks.len().saturating_sub(1)).any(|i| {
+        matches!(toks[i].kind, Kind::Comment(r::CommentKind::InlineLine | r::CommentKind::IndividualLine))
+            && toks[i + 1].lead(x).starts_with('\r')
+            && !toks[i + 1].lead(x).contains('\n')
+    })
+}
+
 pub fn c08(x: &str, out: &str, cfg: &Cfg, opts: &C08Opts, ctx: &mut Ctx) {
+    let before = ctx.stats.violation_count;
+    c08_inner(x, out, cfg, opts, ctx);
+    if ctx.stats.violation_count > before && lone_cr_after_line_comment(x) {
+        if let Some(v) = ctx.stats.violations.last_mut() {
+            if v.property == "C08" && !v.signature.contains("lone-cr") {
+                let old = format!("C08|{}", v.signature);
+                v.signature = format!("{}:line-comment-ended-by-lone-cr", v.signature);
+                let new = format!("C08|{}", v.signature);
+                if let Some(n) = ctx.stats.by_signature.get_mut(&old) {
+                    *n -= 1;
+                }
+                *ctx.stats.by_signature.entry(new).or_default() += 1;
+            }
+        }
+    }
+}
+
+fn c08_inner(x: &str, out: &str, cfg: &Cfg, opts: &C08Opts, ctx: &mut Ctx) {
     let toks = r::scan(out);
     let mask = verbatim_mask(out, &toks);
     let input_has_token = r::scan(x).len() > 1;
